@@ -386,40 +386,39 @@ theorem inject_loop (k kb : UW → Except PyExc Name × SrcFB) (kexc : PyExc →
         refine ⟨s2, ?_, ?_, e3⟩
         · simp only [injectAll, hm]; exact e1
         · simp only [FunctionBuilder.update_wrapper_core.loop1, hs]; exact e2
-    · by_cases hv : s.inject_to_varkw = true ∧ fb.varkw.isSome = true
-      · have hvk : s.self.varkw ≠ none := by
-          rw [h.varkw]; intro e; rw [e] at hv; simp at hv
-        have h' : Rep ({ s.self with exc_sub := 0 } : SrcFB) fb :=
+    · -- `MissingArgument`: the handler decides by `inject_to_varkw` and `fb.varkw`; every case is evaluated on
+      -- literal values, so the shape of the handler's tests does not matter
+      obtain ⟨⟨nm0, ar, df, ko, kd, va, vk, tg⟩, injd, expd, itv, l1, l2, l3⟩ := s
+      simp only at h hs ih ⊢
+      have hvk : vk = fb.varkw := h.varkw
+      cases itv <;> cases vk
+      case true.some v =>
+        have h0 : Rep (⟨nm0, ar, df, ko, kd, va, some v, 0⟩ : SrcFB) fb :=
           ⟨h.name, h.args, h.defaults, h.kwonlyargs, h.kwonlydefaults, h.varargs, h.varkw, rfl⟩
-        rcases ih { s with loc1 := x, self := { s.self with exc_sub := 0 } } fb h' wf with
+        rcases ih ⟨⟨nm0, ar, df, ko, kd, va, some v, 0⟩, injd, expd, true, x, l2, l3⟩ fb h0 wf with
           ⟨fb2, s2, e1, e2, e3, e4, e5⟩ | ⟨s2, e1, e2, e3⟩
         · left
           refine ⟨fb2, s2, ?_, ?_, e3, e4, e5⟩
-          · simp only [injectAll, hm, hv.1, hv.2, Bool.and_self, if_true]; simpa [hv.1] using e1
-          · simp only [FunctionBuilder.update_wrapper_core.loop1, hs]
-            rw [if_pos (show s.inject_to_varkw = true ∧ s.self.varkw ≠ none from ⟨hv.1, hvk⟩)]
+          · simp only [injectAll, hm, ← hvk, Option.isSome_some, Bool.and_self, if_true]; exact e1
+          · simp only [FunctionBuilder.update_wrapper_core.loop1, hs, ne_eq, reduceCtorEq, not_false_eq_true,
+              and_self, not_true_eq_false, if_true, if_false, reduceIte]
             exact e2
         · right
           refine ⟨s2, ?_, ?_, e3⟩
-          · simp only [injectAll, hm, hv.1, hv.2, Bool.and_self, if_true]; simpa [hv.1] using e1
-          · simp only [FunctionBuilder.update_wrapper_core.loop1, hs]
-            rw [if_pos (show s.inject_to_varkw = true ∧ s.self.varkw ≠ none from ⟨hv.1, hvk⟩)]
+          · simp only [injectAll, hm, ← hvk, Option.isSome_some, Bool.and_self, if_true]; exact e1
+          · simp only [FunctionBuilder.update_wrapper_core.loop1, hs, ne_eq, reduceCtorEq, not_false_eq_true,
+              and_self, not_true_eq_false, if_true, if_false, reduceIte]
             exact e2
-      · right
-        have hvk : ¬ (s.inject_to_varkw = true ∧ s.self.varkw ≠ none) := by
-          rw [h.varkw]; intro ⟨a, b⟩; apply hv; refine ⟨a, ?_⟩
-          cases hvv : fb.varkw with
-          | none => exact absurd hvv b
-          | some v => rfl
-        refine ⟨{ s with loc1 := x, self := { s.self with exc_sub := 1 } }, ?_, ?_, rfl⟩
-        · simp only [injectAll, hm]
-          have : (s.inject_to_varkw && fb.varkw.isSome) = false := by
-            cases hb : (s.inject_to_varkw && fb.varkw.isSome)
-            · rfl
-            · exfalso; apply hv; simpa using hb
-          rw [this]; rfl
-        · simp only [FunctionBuilder.update_wrapper_core.loop1, hs]
-          simp only [hvk, if_false, reduceIte]
+      all_goals
+        right
+        refine ⟨?_, ?h1, ?h2, ?h3⟩
+        case h2 =>
+          simp only [FunctionBuilder.update_wrapper_core.loop1, hs, ne_eq, reduceCtorEq, not_false_eq_true,
+            not_true_eq_false, and_self, and_false, false_and, and_true, true_and, Bool.false_eq_true, if_true, if_false,
+            reduceIte]
+          rfl
+        case h1 => simp [injectAll, hm, ← hvk]
+        case h3 => rfl
 
 /-- the `expected` loop is the model's `expectAll` -/
 theorem expect_loop (k kb : UW → Except PyExc Name × SrcFB) (kexc : PyExc → UW → Except PyExc Name × SrcFB)
